@@ -28,17 +28,10 @@ func propC09(w *World, r *Report) {
 		r.Unknown("roles", "detector kernels", "-", err.Error())
 		return
 	}
-	e := newTermEnv(w)
+	_ = newTermEnv
 	checkPixelsChanged(w, r, d, k, "K")
 	// F2
-	t := e.inline(k.ffcPred, []ssa.Value{k.ffcPred.Params[0]})
-	got := "<not inlinable>"
-	if t != nil {
-		got = t.String()
-	}
-	root := "cptvframe.Frame.Status@param:cptvframe.Frame"
-	want := "lt((-1*cptvframe.Telemetry.LastFFCTime@" + root + " + cptvframe.Telemetry.TimeOn@" + root + "), 10000000000)"
-	r.Check(got == want, "F2", "FFC predicate is TimeOn - LastFFCTime < 10 s (strict)", w.Pos(k.ffcPred.Pos()), got)
+	checkFFCPredicate(w, r, k, "F2")
 	// F1b (path form; loop-free stage methods split off Detect are unfolded): on every path Detect calls the selection
 	// logic once, with the current frame and the FFC state of the PREVIOUS frame (every load of the state field comes
 	// before the one store of isAffectedByFFC(current frame), which comes before the call), and returns its verdict
@@ -137,6 +130,20 @@ func propC09(w *World, r *Report) {
 	checkResetChain(w, r, d, k)
 }
 
+// checkFFCPredicate: a frame is FFC-affected exactly while TimeOn - LastFFCTime < 10 s (strict): the frame 10 s after the
+// calibration is an ordinary frame again (it is differenced, and the background is re-seeded from it).
+func checkFFCPredicate(w *World, r *Report, k *kernels, rule string) {
+	e := newTermEnv(w)
+	t := e.inline(k.ffcPred, []ssa.Value{k.ffcPred.Params[0]})
+	got := "<not inlinable>"
+	if t != nil {
+		got = t.String()
+	}
+	root := "cptvframe.Frame.Status@param:cptvframe.Frame"
+	want := "lt((-1*cptvframe.Telemetry.LastFFCTime@" + root + " + cptvframe.Telemetry.TimeOn@" + root + "), 10000000000)"
+	r.Check(got == want, rule, "FFC predicate is TimeOn - LastFFCTime < 10 s (strict)", w.Pos(k.ffcPred.Pos()), got)
+}
+
 // checkReseed: F4 / A4
 func checkReseed(w *World, r *Report, d *detInfo, k *kernels, curFFCField int, rule string) {
 	e := newTermEnv(w)
@@ -215,6 +222,9 @@ func checkReseed(w *World, r *Report, d *detInfo, k *kernels, curFFCField int, r
 	}
 	checkUpdateBeforeDifferencing(w, r, d, k, rule)
 	checkDetectorSeesEveryFrame(w, r, rule) // the FFC hand-shake and the re-seed need the detector to see the FFC frames
+	if rule != "F4" {
+		checkFFCPredicate(w, r, k, rule) // which frames are kept out of the background and which one re-seeds it
+	}
 }
 
 // forwardReaches: b is executed after a without taking a back edge (same loop iteration, or later straight-line code).
